@@ -1,0 +1,70 @@
+//go:build verif
+
+// Verification hook (build tag verif): one scionPacketProcessor that is reused for a sequence
+// of packets, the way dataPlane.runProcessor creates one processor per queue and calls
+// processPkt (which starts with reset()) on every packet it receives. VerifProcess builds a
+// fresh processor per packet and therefore cannot observe state that leaks from one packet to
+// the next. Add-only; no behaviour change.
+
+package router
+
+import (
+	"fmt"
+	"net"
+)
+
+// VerifProcessor is a packet processor of a dataplane built by VerifNewDataPlane.
+type VerifProcessor struct {
+	v    *VerifDataPlane
+	proc *scionPacketProcessor
+}
+
+// VerifNewProcessor creates the processor (as runProcessor does at its start).
+func (v *VerifDataPlane) VerifNewProcessor() *VerifProcessor {
+	return &VerifProcessor{v: v, proc: newPacketProcessor(v.dp)}
+}
+
+// Process runs processPkt of the reused processor on raw as received over link ingress and
+// then what runProcessor does with a pForward packet (like VerifProcess).
+func (s *VerifProcessor) Process(raw []byte, ingress int, src *net.UDPAddr) (res VerifResult, err error) {
+	v, d := s.v, s.v.dp
+	p, err := v.VerifNewPacket(raw, ingress, src)
+	if err != nil {
+		return VerifResult{}, err
+	}
+	res.pkt = p
+	res.EgressLink = -1
+	func() {
+		defer func() {
+			if e := recover(); e != nil {
+				res.Disp = VerifPanic
+				res.PanicMsg = fmt.Sprint(e)
+				// runProcessor would have died; continue with a new processor
+				s.proc = newPacketProcessor(d)
+			}
+		}()
+		res.Disp = int(s.proc.processPkt(p))
+	}()
+	res.Egress = p.egress
+	res.Out = append([]byte(nil), p.RawPacket...)
+	res.TrafficType = int(p.trafficType)
+	res.Req = VerifRequest{
+		Type:    int(p.slowPathRequest.spType),
+		Code:    int(p.slowPathRequest.code),
+		Pointer: int(p.slowPathRequest.pointer),
+	}
+	if res.Disp != VerifForward {
+		return res, nil
+	}
+	fwLink := d.interfaces[p.egress]
+	if fwLink == nil {
+		return res, nil
+	}
+	res.EgressLink = v.LinkID(fwLink)
+	if fwLink.Scope() == Internal && p.RemoteAddr != nil {
+		a := *(*net.UDPAddr)(p.RemoteAddr)
+		res.Dst = &a
+	}
+	res.Sent = fwLink.Send(p)
+	return res, nil
+}
